@@ -127,6 +127,9 @@ def nd_arrays(draw):
     else:
         shape = draw(st.lists(st.integers(1, 4), min_size=2, max_size=4))
     layout = draw(st.sampled_from(["C", "C", "F", "strided", "neg"]))
+    if draw(st.integers(0, 11)) == 0:
+        c = draw(st.sampled_from(["pickle-bytes", "gzip-dill-bytes", "gzip-bytes", "zip-magic", "json-bytes"]))
+        return {"t": "nd", "dtype": "uint8", "shape": [1], "seed": draw(st.integers(0, 10**6)), "layout": "C", "content": c}
     return {"t": "nd", "dtype": dt, "shape": shape, "seed": draw(st.integers(0, 10**6)), "layout": layout}
 
 
@@ -276,6 +279,22 @@ def objects(draw, depth, complex_ok=True, min_attrs=0, max_attrs=5, rng_in_conta
 # build
 # ------------------------------------------------------------------------------------------------
 def _make_nd(spec):
+    if spec.get("content"):
+        # arrays whose BYTES look like something the serializer uses internally
+        import gzip
+        import pickle
+
+        import dill
+
+        payload = {"k": spec["seed"] % 7, "l": [1, 2, 3]}
+        raw = {
+            "pickle-bytes": pickle.dumps(payload),
+            "gzip-dill-bytes": gzip.compress(dill.dumps(payload), mtime=0),
+            "gzip-bytes": gzip.compress(b"not a pickle %d" % spec["seed"], mtime=0),
+            "zip-magic": b"PK\x03\x04" + bytes(range(20)),
+            "json-bytes": b'{"_autoserialize": {"version": 1}}',
+        }[spec["content"]]
+        return np.frombuffer(raw, dtype=np.uint8).copy()
     dt = np.dtype(spec["dtype"])
     shape = tuple(spec["shape"])
     rng = np.random.default_rng(spec["seed"])
@@ -368,7 +387,24 @@ def _make_module(spec):
     return torch.nn.ModuleList([torch.nn.Linear(2, 2), torch.nn.Conv1d(1, 2, 3)])
 
 
+_ALIASES = None
+
+
 def build(spec):
+    """Top-level entry: objects carrying the same "alias" key are built once and shared (one instance
+    reachable along several paths of an acyclic graph)."""
+    global _ALIASES
+    top = _ALIASES is None
+    if top:
+        _ALIASES = {}
+    try:
+        return _build(spec)
+    finally:
+        if top:
+            _ALIASES = None
+
+
+def _build(spec):
     t = spec["t"]
     if t in ("bool", "int", "float", "str"):
         return spec["v"]
@@ -406,19 +442,23 @@ def build(spec):
 
         return Unpicklable()
     if t == "list":
-        return [build(s) for s in spec["items"]]
+        return [_build(s) for s in spec["items"]]
     if t == "tuple":
-        return tuple(build(s) for s in spec["items"])
+        return tuple(_build(s) for s in spec["items"])
     if t == "set":
-        return set(build(s) for s in spec["items"])
+        return set(_build(s) for s in spec["items"])
     if t == "dict":
-        return {k: build(s) for k, s in spec["items"]}
+        return {k: _build(s) for k, s in spec["items"]}
     if t == "obj":
         from vq.models import ser_models, ser_models2
 
+        if spec.get("alias") is not None and spec["alias"] in _ALIASES:
+            return _ALIASES[spec["alias"]]
         o = (ser_models2 if spec.get("mod") == 2 else ser_models).CLASSES[spec["cls"]]()
+        if spec.get("alias") is not None:
+            _ALIASES[spec["alias"]] = o
         for name, s in spec["attrs"]:
-            o.__dict__[name] = build(s)
+            o.__dict__[name] = _build(s)
         return o
     raise ValueError("unknown spec %r" % (t,))
 
@@ -437,6 +477,10 @@ def kinds(spec, ctxname="root", out=None):
         label = t + ":numeric"
     if t == "obj" and spec.get("mod") == 2:
         label = "obj:same_name_other_module"
+    if t == "obj" and spec.get("alias") is not None:
+        label = "obj:shared_instance"
+    if t == "nd" and spec.get("content"):
+        label = "nd:payload_lookalike"
     if t == "tensor" and spec.get("view"):
         label = label + ":view"
     out.append("%s@%s" % (label, ctxname))
